@@ -454,6 +454,20 @@ def r3_int_total(ctx):
         ok = exc in caught
         yield Ob('x12file:X12Base._int handles %s' % exc, ok, ctx.floc(fn),
                  '' if ok else 'int() raises %s for %s and _int does not catch it' % (exc, why))
+    # what _int returns, decided by constant propagation (exceptions of int() included): the number for a decimal text,
+    # None - never a number - for a blank, absent or non-numeric one: a declared count that cannot be read must not compare
+    # equal to any true count (0 included)
+    from ..absint import run_function, NotClosedTest
+    bad = []
+    for x, want in (('12', 12), ('0', 0), ('007', 7), ('', None), (None, None), ('X', None), ('1.5', None), ('2A', None)):
+        try:
+            got = run_function(ctx.cfg(fn), fn, [None, x], {})
+        except (NotClosedTest, A.NotClosed) as e:
+            raise AnalysisError('X12Base._int cannot be decided for %r: %s' % (x, e))
+        if got != want or (got is not None and type(got) is not int):
+            bad.append('_int(%r) is %r, not %r' % (x, got, want))
+    yield Ob('x12file:X12Base._int is the number for a decimal text and None otherwise', not bad, ctx.floc(fn),
+             '' if not bad else bad[0] + ': an unreadable count then equals a true count of that value and the count error is not raised')
     # every declared count in the reader goes through _int (no bare int() on segment values)
     for q, f in ctx.functions('x12file'):
         for c in A.calls_in(f):
@@ -489,9 +503,18 @@ def r4_pending_errors_kept(ctx):
         raise AnalysisError('x12file: stores to self.err_list not found')
 
 
+def r5_shared_tokenizer(ctx):
+    """an envelope segment that the tokenizer hands over damaged (a line break glued to its id at a buffer boundary) is not recognised as a trailer: C01.R3 / R5 (shared)"""
+    from . import c01
+    for fn in (c01.r3_tokenizer_exits, c01.r5_strip_set):
+        for o in fn(ctx):
+            yield o
+
+
 RULES = [
     Rule('C04.R1', 'header/trailer compare-reset wiring derived from the branch labels of _parse_segment', r1_wiring, floor=37),
     Rule('C04.R2', 'top-of-stack reads/deletes/pops of emptiable lists hold NonEmpty (typestate on the CFG)', r2_stack_safety, floor=13),
     Rule('C04.R3', '_int is total over str|None; no bare int() on run-time values in x12file', r3_int_total, floor=1),
+    Rule('C04.R5', 'shared with C01.R3/R5: no segment is damaged or lost at a buffer boundary', r5_shared_tokenizer, floor=6),
     Rule('C04.R4', 'pending reader errors are only removed by pop_errors, never per segment', r4_pending_errors_kept, floor=2),
 ]
